@@ -2934,6 +2934,52 @@ impl Database {
                     }
                 };
 
+                // select-list items that are not plain columns are evaluated on the joined row
+                // (an aggregate's select list refers to the aggregation's output, not to this row)
+                let output_item_exprs: Vec<Option<crate::sql::predicate::CompiledPredicate>> =
+                    match find_project_exprs(physical_plan.root)
+                        .filter(|_| !has_aggregate(physical_plan.root))
+                    {
+                        Some(project_exprs) => project_exprs
+                            .iter()
+                            .map(|expr| {
+                                if resolve_expr_to_idx(expr, &join_column_map).is_some() {
+                                    None
+                                } else {
+                                    Some(crate::sql::predicate::CompiledPredicate::with_column_map_ref(
+                                        expr,
+                                        &join_column_map,
+                                    ))
+                                }
+                            })
+                            .collect(),
+                        None => Vec::new(),
+                    };
+                let project_joined_row = |combined: &[OwnedValue]| -> Vec<OwnedValue> {
+                    let values: smallvec::SmallVec<[Value<'_>; 16]> =
+                        combined.iter().map(|v| v.to_value()).collect();
+                    let row_ref = ExecutorRow::new(&values);
+                    output_source_indices
+                        .iter()
+                        .enumerate()
+                        .map(|(item, (source_idx, data_type))| {
+                            match output_item_exprs.get(item).and_then(|e| e.as_ref()) {
+                                Some(compiled) => compiled
+                                    .evaluate_to_value(&row_ref)
+                                    .map(|v| convert_value_with_type(&v, *data_type))
+                                    .unwrap_or(OwnedValue::Null),
+                                None => {
+                                    let val = combined
+                                        .get(*source_idx)
+                                        .cloned()
+                                        .unwrap_or(OwnedValue::Null);
+                                    convert_value_with_type(&val.to_value(), *data_type)
+                                }
+                            }
+                        })
+                        .collect()
+                };
+
                 fn hash_join_key(row: &[OwnedValue], key_indices: &[usize]) -> u64 {
                     use crate::database::query::hash_owned_value_normalized;
                     use std::hash::Hasher;
@@ -3061,16 +3107,7 @@ impl Database {
                                         continue;
                                     }
 
-                                    let owned: Vec<OwnedValue> = output_source_indices
-                                        .iter()
-                                        .map(|(source_idx, data_type)| {
-                                            let val = combined_buf
-                                                .get(*source_idx)
-                                                .cloned()
-                                                .unwrap_or(OwnedValue::Null);
-                                            convert_value_with_type(&val.to_value(), *data_type)
-                                        })
-                                        .collect();
+                                    let owned: Vec<OwnedValue> = project_joined_row(&combined_buf);
 
                                     if is_distinct {
                                         let key: Vec<u64> = owned
@@ -3156,16 +3193,7 @@ impl Database {
                                     continue;
                                 }
 
-                                let owned: Vec<OwnedValue> = output_source_indices
-                                    .iter()
-                                    .map(|(source_idx, data_type)| {
-                                        let val = combined_buf
-                                            .get(*source_idx)
-                                            .cloned()
-                                            .unwrap_or(OwnedValue::Null);
-                                        convert_value_with_type(&val.to_value(), *data_type)
-                                    })
-                                    .collect();
+                                let owned: Vec<OwnedValue> = project_joined_row(&combined_buf);
 
                                 if is_distinct {
                                     let key: Vec<u64> = owned
@@ -3217,16 +3245,7 @@ impl Database {
                                 continue;
                             }
 
-                            let owned: Vec<OwnedValue> = output_source_indices
-                                .iter()
-                                .map(|(source_idx, data_type)| {
-                                    let val = combined_buf
-                                        .get(*source_idx)
-                                        .cloned()
-                                        .unwrap_or(OwnedValue::Null);
-                                    convert_value_with_type(&val.to_value(), *data_type)
-                                })
-                                .collect();
+                            let owned: Vec<OwnedValue> = project_joined_row(&combined_buf);
 
                             if is_distinct {
                                 let key: Vec<u64> = owned
@@ -3278,17 +3297,7 @@ impl Database {
                             continue;
                         }
 
-                        // projected through the select list, like every other row
-                        let owned: Vec<OwnedValue> = output_source_indices
-                            .iter()
-                            .map(|(source_idx, data_type)| {
-                                let val = combined
-                                    .get(*source_idx)
-                                    .cloned()
-                                    .unwrap_or(OwnedValue::Null);
-                                convert_value_with_type(&val.to_value(), *data_type)
-                            })
-                            .collect();
+                        let owned: Vec<OwnedValue> = project_joined_row(&combined);
 
                         if is_distinct {
                             let key: Vec<u64> = owned
@@ -3332,16 +3341,7 @@ impl Database {
                         combined_buf.clear();
                         combined_buf.extend(left_row.iter().cloned());
 
-                        let owned: Vec<OwnedValue> = output_source_indices
-                            .iter()
-                            .map(|(source_idx, data_type)| {
-                                let val = combined_buf
-                                    .get(*source_idx)
-                                    .cloned()
-                                    .unwrap_or(OwnedValue::Null);
-                                convert_value_with_type(&val.to_value(), *data_type)
-                            })
-                            .collect();
+                        let owned: Vec<OwnedValue> = project_joined_row(&combined_buf);
 
                         if is_distinct {
                             let key: Vec<u64> = owned
